@@ -260,3 +260,19 @@ Theorem C19_held_back_except : forall v P C c, mreach v (init P C) c ->
   pc c = RCW WBlocked /\ cev (sh c) = false.
 Proof. exact held_back_except. Qed.
 Print Assumptions C19_held_back_except.
+
+(* BINARY EVENTS in transport histories (header frame + attachment frames, a loss possible between the
+   frames): `dispatch` / `server_sent` count an event when all its frames were delivered on one
+   connection, so C19_transport_fifo and C19_transport_received_were_sent above cover them.  About
+   `dispatch` itself: a half-received binary event (1) is discarded whenever the transport leaves the
+   `up` phase - it leaves no state across a reconnection - and (2) while incomplete, every transport
+   event other than its next attachment either produces no handler invocation or discards it. *)
+Theorem C19_incomplete_binary_leaves_no_state : forall tp pd o,
+  fst (fst (tnextb tp (TUp, pd) o)) <> TUp -> snd (fst (tnextb tp (TUp, pd) o)) = None.
+Proof. exact tnextb_leaves_up_clears. Qed.
+Print Assumptions C19_incomplete_binary_leaves_no_state.
+
+Theorem C19_incomplete_binary_silent : forall tp e a k o, o <> TBinAtt ->
+  snd (tnextb tp (TUp, Some (e, a, k)) o) = [] \/ snd (fst (tnextb tp (TUp, Some (e, a, k)) o)) = None.
+Proof. exact tnextb_incomplete_silent. Qed.
+Print Assumptions C19_incomplete_binary_silent.
